@@ -4,9 +4,9 @@ import json, os, shutil, glob, re
 import sys
 S='/tmp/seedwork'; D='/verif/seeded'
 ROUND=sys.argv[1] if len(sys.argv)>1 else '1'
-RES='results' if ROUND=='1' else 'results2'
-OUTP='out-' if ROUND=='1' else 'out2-'
-PFX='' if ROUND=='1' else 'r2-'
+RES={'1':'results','2':'results2','3':'results3'}[ROUND]
+OUTP={'1':'out-','2':'out2-','3':'out3-'}[ROUND]
+PFX={'1':'','2':'r2-','3':'r3-'}[ROUND]
 EXTRA=json.load(open(f'{S}/extra{ROUND}.json')) if os.path.exists(f'{S}/extra{ROUND}.json') else {}
 rows=[]
 for rf in sorted(glob.glob(f'{S}/{RES}/C*-*.json')):
@@ -23,8 +23,8 @@ for rf in sorted(glob.glob(f'{S}/{RES}/C*-*.json')):
     log=open(f'{S}/{RES}/{sid}.log',errors='replace').read() if os.path.exists(f'{S}/{RES}/{sid}.log') else ''
     conf=[l for l in log.splitlines() if l.startswith(('suite with patch','demo with patch','demo without patch','SEED-'))]
     prev=json.load(open(f'{dst}/meta.json')) if os.path.exists(f'{dst}/meta.json') else {}
-    caught=sorted(set(r.get('caught_by',[]))|set(prev.get('checks_run',{}).get('caught_by',[]))|set(EXTRA.get(sid,{}).get('caught_by',[])))
-    missed=sorted(set(r.get('not_caught_by',[]))-set(caught))
+    caught=sorted((set() if ROUND=='3' else set(r.get('caught_by',[])))|set(prev.get('checks_run',{}).get('caught_by',[]))|set(EXTRA.get(sid,{}).get('caught_by',[])))
+    missed=sorted(set(r.get('not_caught_by',[]))-set(caught)) if ROUND!='3' else []
     meta_out={
       'property':pid,'seed':sid,
       'breaks':meta.get('summary'),'needs_to_manifest':meta.get('needs'),'witness':meta.get('witness'),
